@@ -24,8 +24,9 @@ from harness.core import cbool, clist, cz, czlist
 
 ID = "C12"
 MODEL_TARGETS = ["C12/Cases.vo"]
-PROOF_TARGETS = ["C12/Sites.vo", "C12/Own.vo", "C12/Proofs.vo", "C12/Bridge.vo", "C12/Refuted.vo"]
-OBLIGATION_FILES = ["C12/Bridge.v", "C12/Refuted.v"]
+PROOF_TARGETS = ["C12/Own.vo", "C12/Proofs.vo", "C12/BridgeOwn.vo", "C12/Sites.vo", "C12/Bridge.vo",
+                 "C12/Refuted.vo"]
+OBLIGATION_FILES = ["C12/BridgeOwn.v", "C12/Bridge.v", "C12/Refuted.v"]
 PROPS_FILE = "C12/Props.v"
 SHARD = 60
 PER_CASE_TIMEOUT = 150
@@ -72,7 +73,8 @@ MODELLED = [
     "apply-type methods that write scratch attributes on self without changing any later result "
     "(PlateauFinder._starts/_lengths, IndividualBOSS.transformer.words) are reported in the "
     "distribution (`scratch-attrs:*`) but not failed; constructor parameters and RNG state must not "
-    "change",
+    "change.  Exception: the apply-type methods with a regenerated ownership program (proved free of "
+    "writes to the estimator) must not change ANY attribute (clause apply-changed-estimator-state)",
     "random_state is an int seed throughout (the quantifier says `seeds'): a shared RandomState "
     "instance passed as random_state is outside the property",
 ]
@@ -101,6 +103,10 @@ def _own_meta(repo=None):
         from translator import own_c12
         _OWN["ms"] = own_c12.extract(repo or core.REPO)
     return _OWN["ms"]
+
+
+def _generated_apply_names():
+    return {m["name"] for m in _own_meta() if not m["self_ok"]}
 
 
 def translate(repo):
@@ -1086,11 +1092,18 @@ def oracle(case, out):
             if c["same"].get("n_jobs=" + key) is False:
                 return "n-jobs-differs: %s.%s with n_jobs=%s %s" % (
                     name, c["label"], key, c["diffs"].get("n_jobs=" + key))
-    # last (so that it masks nothing else): constructor parameters changed by an apply-type call
+    # last (so that they mask nothing else): constructor parameters changed by an apply-type call
     for c in out["calls"]:
         if c["params_changed"]:
             return "apply-changed-estimator-params: %s.%s changed get_params() values" % (
                 name, c["label"])
+    # apply-type methods whose ownership program is regenerated and proved free of writes to the
+    # estimator (Bridge (b)): no attribute of the estimator may change at all
+    pure = _generated_apply_names()
+    for c, q in zip(out["calls"], out.get("quals", [None])[1:]):
+        if q in pure and c["scratch"]:
+            return "apply-changed-estimator-state: %s.%s (%s) wrote attribute(s) %s" % (
+                name, c["label"], q, c["scratch"])
     return None
 
 
@@ -1261,9 +1274,8 @@ def _mref(qual, is_fit, params, frame):
     for k, m in enumerate(ms):
         if m["name"] == qual:
             bits = []
-            for src, node, _ in m["conds"]:
-                v = own_c12.eval_cond(node, params, frame) if node is not None else None
-                bits.append(bool(v))
+            for src, node, top in m["conds"]:
+                bits.append(bool(own_c12.eval_cond(node, params, frame, top)))
             return "(MGen %d%%nat %s)" % (k, clist([cbool(x) for x in bits]))
     return "MFitShape" if is_fit else "MCopyFirst"
 
@@ -1303,9 +1315,11 @@ def coq_case(case, out):
     if k == "est":
         frame = case["input"].get("container") == "frame"
         calls = []
+        changed = [False] + [bool(c["scratch"]) for c in out["calls"]]
         for i, ((b, a), q, ria) in enumerate(zip(out["own"], out["quals"], out["res_is_arg"])):
-            calls.append("(%s, (%s, %s), %s)" % (_mref(q, i == 0, out.get("params", {}), frame),
-                                                 _cstore(b), _cstore(a), cbool(ria)))
+            calls.append("(%s, (%s, %s), (%s, %s))" % (
+                _mref(q, i == 0, out.get("params", {}), frame), _cstore(b), _cstore(a),
+                cbool(ria), cbool(changed[i])))
         pc = any(c["params_changed"] for c in out["calls"])
         return "CEst %s %s" % (clist(calls), cbool(pc))
     if k == "pool":
